@@ -202,6 +202,7 @@ const prelude = `
 (declare-fun tyof (Ref) Int)
 (declare-fun alen (Ref) Int)
 (declare-fun tagty (Int) Int)
+(declare-fun elty (Ref) Int)
 (define-fun parent ((r Ref)) Ref (ite ((_ is fld) r) (fbase r) (ite ((_ is elt) r) (ebase r) null)))
 (define-fun within ((r Ref) (x Ref)) Bool (and (not (= x null)) (or (= (parent r) x) (= (parent (parent r)) x) (= (parent (parent (parent r))) x))))
 (define-fun withineq ((r Ref) (x Ref)) Bool (and (not (= x null)) (or (= r x) (= (parent r) x) (= (parent (parent r)) x) (= (parent (parent (parent r))) x))))
@@ -251,7 +252,7 @@ var bseqGroup = axiomGroup{
 (assert (forall ((s BSeq) (i Int) (j Int)) (! (=> (and (<= 0 i) (<= i j) (<= j (blen s))) (= (blen (bsub s i j)) (- j i))) :pattern ((bsub s i j)))))
 (assert (forall ((s BSeq) (i Int) (j Int)) (! (=> (and (= i 0) (= j (blen s))) (= (bsub s i j) s)) :pattern ((bsub s i j)))))
 (assert (forall ((s BSeq) (i Int) (j Int)) (! (=> (= i j) (= (bsub s i j) bempty)) :pattern ((bsub s i j)))))
-(assert (forall ((s BSeq) (i Int) (j Int) (k Int) (l Int)) (! (=> (and (<= 0 i) (<= i j) (<= j (blen s)) (<= 0 k) (<= k l) (<= l (- j i))) (= (bsub (bsub s i j) k l) (bsub s (+ i k) (+ i l)))) :pattern ((bsub (bsub s i j) k l)))))
+(assert (forall ((s BSeq) (i Int) (j Int) (k Int) (l Int)) (! (=> (and (<= 0 i) (<= i j) (<= j (blen s)) (<= 0 k) (<= k l) (<= l (- j i))) (= (bsub (bsub s i j) k l) (bsub s (+ i k) (+ i l)))) :weight 5 :pattern ((bsub (bsub s i j) k l)))))
 (assert (forall ((a BSeq) (b BSeq) (i Int) (j Int)) (! (=> (and (<= 0 i) (<= i j) (<= j (blen a))) (= (bsub (bcat a b) i j) (bsub a i j))) :pattern ((bsub (bcat a b) i j)))))
 (assert (forall ((a BSeq) (b BSeq) (i Int) (j Int)) (! (=> (and (<= (blen a) i) (<= i j) (<= j (+ (blen a) (blen b)))) (= (bsub (bcat a b) i j) (bsub b (- i (blen a)) (- j (blen a))))) :pattern ((bsub (bcat a b) i j)))))
 (assert (forall ((s BSeq) (i Int) (j Int) (j2 Int) (k Int)) (! (=> (and (= j j2) (<= 0 i) (<= i j) (<= j k) (<= k (blen s))) (= (bcat (bsub s i j) (bsub s j2 k)) (bsub s i k))) :pattern ((bcat (bsub s i j) (bsub s j2 k))))))
@@ -260,7 +261,7 @@ var bseqGroup = axiomGroup{
 (assert (forall ((s BSeq) (i Int)) (! (=> (and (<= 0 i) (< i (blen s))) (and (<= 0 (bat s i)) (<= (bat s i) 255))) :pattern ((bat s i)))))
 (assert (forall ((a (Array Int Int)) (o Int) (n Int)) (! (=> (>= n 0) (= (blen (seqOf a o n)) n)) :pattern ((seqOf a o n)))))
 (assert (forall ((a (Array Int Int)) (o Int) (n Int) (i Int)) (! (=> (and (<= 0 i) (< i n)) (= (bat (seqOf a o n) i) (select a (+ o i)))) :pattern ((bat (seqOf a o n) i)))))
-(assert (forall ((a (Array Int Int)) (o Int) (n Int) (i Int) (j Int)) (! (=> (and (<= 0 i) (<= i j) (<= j n)) (= (bsub (seqOf a o n) i j) (seqOf a (+ o i) (- j i)))) :pattern ((bsub (seqOf a o n) i j)))))
+(assert (forall ((a (Array Int Int)) (o Int) (n Int) (i Int) (j Int)) (! (=> (and (<= 0 i) (<= i j) (<= j n)) (= (bsub (seqOf a o n) i j) (seqOf a (+ o i) (- j i)))) :weight 3 :pattern ((bsub (seqOf a o n) i j)))))
 (assert (forall ((a (Array Int Int)) (o Int) (n Int) (p Int) (m Int)) (! (=> (and (= p (+ o n)) (>= n 0) (>= m 0)) (= (bcat (seqOf a o n) (seqOf a p m)) (seqOf a o (+ n m)))) :pattern ((bcat (seqOf a o n) (seqOf a p m))))))
 (assert (forall ((a (Array Int Int)) (i Int) (v Int) (o Int) (n Int)) (! (=> (or (< i o) (>= i (+ o n))) (= (seqOf (store a i v) o n) (seqOf a o n))) :pattern ((seqOf (store a i v) o n)))))
 (assert (forall ((a (Array Int Int)) (o Int) (n Int) (s BSeq) (i Int)) (! (= (select (splice a o n s) i) (ite (and (<= o i) (< i (+ o n))) (bat s (- i o)) (select a i))) :pattern ((select (splice a o n s) i)))))
